@@ -287,7 +287,8 @@ def run(ctx):
             continue
         d0 = drops[0]
         ctx.fn(d0)
-        d = prog.inlined_body(d0, pred=lambda cb: cb.file == d0.file and cb.impl_adt is None)
+        KEEP = {"add_span", "get_or_init_thread_counters", "allocation_totals", "bytes", "count", "register_allocation"}
+        d = prog.inlined_body(d0, pred=lambda cb: cb.name not in KEEP)
         sink = [(bb, t) for bb, t in d.calls() if callee_key(t["callee"]).endswith("OperationMetrics::add_span")]
         subs = [(bb, t) for bb, t in d.calls() if t["callee"].get("method") in ("checked_sub", "wrapping_sub", "saturating_sub", "sub")]
         okc = len(subs) == 2
